@@ -1,6 +1,7 @@
 package peering
 
 import (
+	"crypto/cipher"
 	"fmt"
 
 	"github.com/mycoria/mycoria/m"
@@ -127,19 +128,11 @@ func (f LinkFrame) Unseal(encrypt *state.EncryptionSession) error {
 		return fmt.Errorf("link frame is too small (%d bytes)", len(f))
 	}
 
-	// Prepare.
-	seqNum := f.SequenceNum()
-	c, err := encrypt.In(seqNum, false)
-	if err != nil {
+	// Select the cipher, decrypt and authenticate the data and check the
+	// sequence number in one step.
+	return encrypt.Open(f.SequenceNum(), false, func(c cipher.AEAD) error {
+		toDecrypt := f.LinkDataWithAuth()
+		_, err := c.Open(toDecrypt[:0], f.Nonce(), toDecrypt, nil)
 		return err
-	}
-
-	// Decrypt and authenticate data.
-	toDecrypt := f.LinkDataWithAuth()
-	if _, err := c.Open(toDecrypt[:0], f.Nonce(), toDecrypt, nil); err != nil {
-		return err
-	}
-
-	// Check sequence.
-	return encrypt.Check(seqNum, false)
+	})
 }
